@@ -14,13 +14,16 @@ import (
 // (*slog.Logger, qlogwriter.Recorder, qlogwriter.Trace, *httptrace.ClientTrace callbacks).
 // Every method call (or callback field call) on a value of one of these types is listed with
 // `guarded : Bool` = the call is dominated by a nil check of the same expression:
-//   (1) it sits in the then-branch of an enclosing `if … X != nil … {` (conjunctions allowed), or in
-//       the else-branch of `if X == nil`;
-//   (2) an earlier statement of an enclosing block is `if X == nil { return/panic/continue/break }`
-//       or `if X == nil { X = … }`;
-//   (2') it is the right operand of `X != nil && …` / `X == nil || …`;
-//   (3) X is a parameter of the enclosing function and every call of that function in the package
-//       passes an argument that is guarded by (1)/(2) at the call site.
+//   (1) it sits in the then-branch of an enclosing `if C {` where C true implies X != nil, or in the
+//       else-branch of an `if C` where C false implies X != nil;
+//   (2) an earlier statement of an enclosing block is `if C { return/panic/continue/break }` or
+//       `if C { X = … }` where C false implies X != nil (`X == nil`, `err == nil || X == nil`, …), or
+//       `if C { … } else { return }` where C true implies X != nil;
+//   (2') it is the right operand of `C && …` (C true implies X != nil) / `C || …` (C false implies it);
+//   (3) X is a parameter of the enclosing function or method and every call of that function / method
+//       in the package passes an argument that is guarded by (1)/(2) at the call site.
+// "implies" is decided structurally over !, &&, ||, parentheses and comparisons with nil, so that the
+// fact does not depend on how a guard is spelled (nested ifs, early returns, merged conditions).
 func init() {
 	register("H3Guards", func(c *Ctx, w *LeanFile) error {
 		p, err := c.Load("http3")
@@ -52,25 +55,65 @@ func init() {
 		}
 		str := func(e ast.Expr) string { return types.ExprString(e) }
 
-		// condNonNil: does cond (a conjunction) contain `x != nil`?
-		var condNonNil func(cond ast.Expr, x string) bool
+		// Conditions are judged by what they IMPLY, not by their shape:
+		// condNonNil(cond, x): cond true  => x != nil   (`x != nil`, a conjunction with such a conjunct,
+		//                      a disjunction all of whose disjuncts imply it, `!c` with c false => x != nil)
+		// condIsNil(cond, x):  cond false => x != nil   (`x == nil`, a disjunction with such a disjunct,
+		//                      a conjunction all of whose conjuncts have the property, `!c` with c true => x != nil)
+		isNilCmp := func(e *ast.BinaryExpr, x string) bool {
+			return (str(e.X) == x && str(e.Y) == "nil") || (str(e.Y) == x && str(e.X) == "nil")
+		}
+		var condNonNil, condIsNil func(cond ast.Expr, x string) bool
 		condNonNil = func(cond ast.Expr, x string) bool {
 			switch e := cond.(type) {
 			case *ast.ParenExpr:
 				return condNonNil(e.X, x)
+			case *ast.UnaryExpr:
+				return e.Op == token.NOT && condIsNil(e.X, x)
 			case *ast.BinaryExpr:
-				if e.Op == token.LAND {
+				switch e.Op {
+				case token.LAND:
 					return condNonNil(e.X, x) || condNonNil(e.Y, x)
-				}
-				if e.Op == token.NEQ {
-					return (str(e.X) == x && str(e.Y) == "nil") || (str(e.Y) == x && str(e.X) == "nil")
+				case token.LOR:
+					return condNonNil(e.X, x) && condNonNil(e.Y, x)
+				case token.NEQ:
+					return isNilCmp(e, x)
 				}
 			}
 			return false
 		}
-		condIsNil := func(cond ast.Expr, x string) bool {
-			if e, ok := cond.(*ast.BinaryExpr); ok && e.Op == token.EQL {
-				return (str(e.X) == x && str(e.Y) == "nil") || (str(e.Y) == x && str(e.X) == "nil")
+		condIsNil = func(cond ast.Expr, x string) bool {
+			switch e := cond.(type) {
+			case *ast.ParenExpr:
+				return condIsNil(e.X, x)
+			case *ast.UnaryExpr:
+				return e.Op == token.NOT && condNonNil(e.X, x)
+			case *ast.BinaryExpr:
+				switch e.Op {
+				case token.LOR:
+					return condIsNil(e.X, x) || condIsNil(e.Y, x)
+				case token.LAND:
+					return condIsNil(e.X, x) && condIsNil(e.Y, x)
+				case token.EQL:
+					return isNilCmp(e, x)
+				}
+			}
+			return false
+		}
+		// the init statement of an `if` does not touch x
+		initKeeps := func(init ast.Stmt, x string) bool {
+			switch s := init.(type) {
+			case nil:
+				return true
+			case *ast.AssignStmt:
+				for _, l := range s.Lhs {
+					if str(l) == x {
+						return false
+					}
+				}
+				return true
+			case *ast.ExprStmt:
+				return true
 			}
 			return false
 		}
@@ -135,13 +178,21 @@ func init() {
 						if s == path[i+1] {
 							break
 						}
-						if is, ok := s.(*ast.IfStmt); ok && is.Init == nil && condIsNil(is.Cond, x) {
+						is, ok := s.(*ast.IfStmt)
+						if !ok || !initKeeps(is.Init, x) {
+							continue
+						}
+						if condIsNil(is.Cond, x) {
 							if terminates(is.Body) {
 								return true, "early-exit"
 							}
 							if assigns(is.Body, x) {
 								return true, "defaulted"
 							}
+						}
+						// `if x != nil { … } else { return }`
+						if eb, ok := is.Else.(*ast.BlockStmt); ok && condNonNil(is.Cond, x) && terminates(eb) {
+							return true, "early-exit"
 						}
 					}
 				}
@@ -154,11 +205,11 @@ func init() {
 			path []ast.Node
 			call *ast.CallExpr
 		}
-		callsOf := map[string][]callInfo{}
+		callsOf := map[types.Object][]callInfo{}
 		var sites []site
 		type pending struct {
 			idx   int
-			fn    string
+			fn    types.Object
 			param int
 		}
 		var pend []pending
@@ -179,7 +230,7 @@ func init() {
 					fn = str(t) + "." + fn
 				}
 				params := map[string]int{}
-				if fd.Recv == nil {
+				{
 					k := 0
 					for _, fl := range fd.Type.Params.List {
 						for _, nm := range fl.Names {
@@ -203,11 +254,19 @@ func init() {
 						return true
 					}
 					if id, ok := ce.Fun.(*ast.Ident); ok {
-						callsOf[id.Name] = append(callsOf[id.Name], callInfo{append([]ast.Node(nil), path...), ce})
+						if obj := p.Info.Uses[id]; obj != nil {
+							callsOf[obj] = append(callsOf[obj], callInfo{append([]ast.Node(nil), path...), ce})
+						}
 					}
 					se, ok := ce.Fun.(*ast.SelectorExpr)
 					if !ok {
 						return true
+					}
+					// a call of a method declared in this package
+					if obj := p.Info.Uses[se.Sel]; obj != nil && obj.Pkg() == p.Types {
+						if _, isFunc := obj.(*types.Func); isFunc {
+							callsOf[obj] = append(callsOf[obj], callInfo{append([]ast.Node(nil), path...), ce})
+						}
 					}
 					// method call on an optional value, or callback field of a ClientTrace
 					kind, isOpt := optional(se.X)
@@ -220,7 +279,7 @@ func init() {
 					s := site{file: fname, fn: fn, recv: kind + ":" + x, method: se.Sel.Name, guarded: g, how: how}
 					if !g {
 						if k, isParam := params[x]; isParam {
-							pend = append(pend, pending{len(sites), fd.Name.Name, k})
+							pend = append(pend, pending{len(sites), p.Info.Defs[fd.Name], k})
 						}
 					}
 					sites = append(sites, s)
